@@ -260,6 +260,47 @@ type Cell struct {
 	Alloc *ssa.Alloc
 	Name  string
 	refs  map[*ssa.Function]ssa.Value
+	// field cell: the variable is field fIdx of the (single) state object of type *fT that the owner function allocates and
+	// whose methods the owner calls; every FieldAddr of that field on a *fT denotes it
+	fT    types.Type
+	fIdx  int
+	fns   []*ssa.Function // the functions of the package (where accesses are looked for)
+	owner *ssa.Function   // the function that owns the state (the parser)
+}
+
+// newFieldCell makes the cell for field idx of struct type T (accessed through *T).
+func newFieldCell(T types.Type, idx int, fns []*ssa.Function, owner *ssa.Function) *Cell {
+	st := T.Underlying().(*types.Struct)
+	return &Cell{Name: st.Field(idx).Name(), refs: map[*ssa.Function]ssa.Value{}, fT: T, fIdx: idx, fns: fns, owner: owner}
+}
+
+func (c *Cell) isField() bool { return c.fT != nil }
+
+// elemType: the type of the variable the cell denotes.
+func (c *Cell) elemType() types.Type {
+	if c.isField() {
+		return c.fT.Underlying().(*types.Struct).Field(c.fIdx).Type()
+	}
+	return c.Alloc.Type().(*types.Pointer).Elem()
+}
+
+// sameAddr: a and b denote the same location: the same value, or the same field of the same base.
+func sameAddr(a, b ssa.Value) bool {
+	if a == b {
+		return true
+	}
+	fa, ok1 := a.(*ssa.FieldAddr)
+	fb, ok2 := b.(*ssa.FieldAddr)
+	return ok1 && ok2 && fa.Field == fb.Field && sameAddr(fa.X, fb.X) && types.Identical(fa.X.Type(), fb.X.Type())
+}
+
+func (c *Cell) fieldAddr(v ssa.Value) bool {
+	fa, ok := v.(*ssa.FieldAddr)
+	if !ok || fa.Field != c.fIdx {
+		return false
+	}
+	p, ok := fa.X.Type().Underlying().(*types.Pointer)
+	return ok && types.Identical(p.Elem(), c.fT)
 }
 
 func newCell(a *ssa.Alloc) *Cell {
@@ -288,10 +329,25 @@ func newCell(a *ssa.Alloc) *Cell {
 
 // addrIn returns the address value of the cell inside f (nil if f does not
 // see the cell).
-func (c *Cell) addrIn(f *ssa.Function) ssa.Value { return c.refs[f] }
+func (c *Cell) addrIn(f *ssa.Function) ssa.Value {
+	if c.isField() {
+		// any address value of the field in f (all of them denote the same location when taken on f's receiver)
+		var out ssa.Value
+		instrs(f, func(in ssa.Instruction) {
+			if fa, ok := in.(*ssa.FieldAddr); ok && out == nil && c.fieldAddr(fa) {
+				out = fa
+			}
+		})
+		return out
+	}
+	return c.refs[f]
+}
 
 // isAddr: v is the cell's address (in whichever function v lives).
 func (c *Cell) isAddr(v ssa.Value) bool {
+	if c.isField() {
+		return c.fieldAddr(v)
+	}
 	for _, r := range c.refs {
 		if r == v {
 			return true
@@ -311,10 +367,83 @@ type cellStore struct {
 	Store *ssa.Store
 	Field string // "" for whole-cell stores
 	Fn    *ssa.Function
+	// At: for a store made by a small method of the state object that the owner calls (add, discard, rotate...), the call in
+	// the owner where it takes effect; Fn is then the owner. nil for stores written out in Fn itself.
+	At *ssa.Call
 }
+
+// block / instr: where the store takes effect in Fn.
+func (s cellStore) block() *ssa.BasicBlock {
+	if s.At != nil {
+		return s.At.Block()
+	}
+	return s.Store.Block()
+}
+
+func (s cellStore) instr() ssa.Instruction {
+	if s.At != nil {
+		return s.At
+	}
+	return s.Store
+}
+
+// val: the stored value as seen at the place of effect: a parameter of the helper method reads as the argument of the call.
+func (s cellStore) val() ssa.Value {
+	v := s.Store.Val
+	if s.At == nil {
+		return v
+	}
+	if p, ok := v.(*ssa.Parameter); ok {
+		for i, q := range s.Store.Parent().Params {
+			if q == p && i < len(s.At.Common().Args) {
+				return s.At.Common().Args[i]
+			}
+		}
+	}
+	return v
+}
+
+// keep: functions whose stores stay where they are (roles of their own, e.g. the commit and begin methods).
+var cellKeepFns = map[*ssa.Function]bool{}
 
 func (c *Cell) stores() []cellStore {
 	var out []cellStore
+	if c.isField() {
+		for _, f := range c.fns {
+			instrs(f, func(in ssa.Instruction) {
+				st, ok := in.(*ssa.Store)
+				if !ok {
+					return
+				}
+				field := ""
+				switch {
+				case c.fieldAddr(st.Addr):
+				default:
+					fa, ok := st.Addr.(*ssa.FieldAddr)
+					if !ok || !c.fieldAddr(fa.X) {
+						return
+					}
+					field = fieldName(fa)
+				}
+				if f == c.owner || cellKeepFns[f] || f.Signature.Recv() == nil {
+					out = append(out, cellStore{st, field, f, nil})
+					return
+				}
+				// a helper method of the state object: relocate to its call sites in the owner
+				n := 0
+				instrs(c.owner, func(i2 ssa.Instruction) {
+					if call, ok := i2.(*ssa.Call); ok && call.Common().StaticCallee() == f {
+						out = append(out, cellStore{st, field, c.owner, call})
+						n++
+					}
+				})
+				if n == 0 {
+					out = append(out, cellStore{st, field, f, nil})
+				}
+			})
+		}
+		return out
+	}
 	for f, addr := range c.refs {
 		instrs(f, func(in ssa.Instruction) {
 			st, ok := in.(*ssa.Store)
@@ -322,11 +451,11 @@ func (c *Cell) stores() []cellStore {
 				return
 			}
 			if st.Addr == addr {
-				out = append(out, cellStore{st, "", f})
+				out = append(out, cellStore{st, "", f, nil})
 				return
 			}
 			if fa, ok := st.Addr.(*ssa.FieldAddr); ok && fa.X == addr {
-				out = append(out, cellStore{st, fieldName(fa), f})
+				out = append(out, cellStore{st, fieldName(fa), f, nil})
 			}
 		})
 	}
@@ -338,6 +467,54 @@ func (c *Cell) stores() []cellStore {
 // escapes through them (passed to a call, stored somewhere, …).
 func (c *Cell) otherUses() []ssa.Instruction {
 	var out []ssa.Instruction
+	if c.isField() {
+		for _, f := range c.fns {
+			instrs(f, func(in ssa.Instruction) {
+				fa, ok := in.(*ssa.FieldAddr)
+				if !ok || !c.fieldAddr(fa) || fa.Referrers() == nil {
+					return
+				}
+				for _, r := range *fa.Referrers() {
+					switch x := r.(type) {
+					case *ssa.UnOp:
+						if x.Op == token.MUL {
+							continue
+						}
+					case *ssa.Store:
+						if x.Addr == ssa.Value(fa) {
+							continue
+						}
+					case *ssa.DebugRef:
+						continue
+					case *ssa.FieldAddr:
+						okSub := true
+						if x.Referrers() != nil {
+							for _, u := range *x.Referrers() {
+								switch y := u.(type) {
+								case *ssa.UnOp:
+									if y.Op == token.MUL {
+										continue
+									}
+								case *ssa.Store:
+									if y.Addr == ssa.Value(x) {
+										continue
+									}
+								case *ssa.DebugRef:
+									continue
+								}
+								okSub = false
+							}
+						}
+						if okSub {
+							continue
+						}
+					}
+					out = append(out, r)
+				}
+			})
+		}
+		return out
+	}
 	for _, addr := range c.refs {
 		refs := addr.Referrers()
 		if refs == nil {
@@ -670,7 +847,7 @@ func fieldsAt(addr ssa.Value, b *ssa.BasicBlock, idx int, depth int) map[string]
 			in := b.Instrs[i]
 			if s, ok := in.(*ssa.Store); ok {
 				if fa2, ok := s.Addr.(*ssa.FieldAddr); ok {
-					if fa1, ok := fa2.X.(*ssa.FieldAddr); ok && fa1.X == addr {
+					if fa1, ok := fa2.X.(*ssa.FieldAddr); ok && fa1.X == addr && !sameAddr(fa2.X, addr) {
 						n := fieldName(fa1)
 						if _, done := out[n]; !done {
 							out[n] = fsrc{Sub: &subAt{fa1, b0, idx0}, Name: n}
@@ -678,7 +855,7 @@ func fieldsAt(addr ssa.Value, b *ssa.BasicBlock, idx int, depth int) map[string]
 						continue
 					}
 				}
-				if s.Addr == addr {
+				if sameAddr(s.Addr, addr) {
 					sub := fieldsOfValue(s.Val, depth+1)
 					for _, f := range missing() {
 						if v, ok := sub[f]; ok {
@@ -689,7 +866,7 @@ func fieldsAt(addr ssa.Value, b *ssa.BasicBlock, idx int, depth int) map[string]
 					}
 					return out
 				}
-				if fa, ok := s.Addr.(*ssa.FieldAddr); ok && fa.X == addr {
+				if fa, ok := s.Addr.(*ssa.FieldAddr); ok && sameAddr(fa.X, addr) {
 					n := fieldName(fa)
 					if _, done := out[n]; !done {
 						out[n] = fsrc{Val: s.Val}
